@@ -8,6 +8,7 @@ func ruleC08(prog *Program, rep *Report) {
 	ruleReturnAlias(prog, rep, "C08")
 	ruleGlobals(prog, rep)
 	ruleGlobalWrite(prog, rep)
+	rulePoolNew(prog, rep, append(append([]feSpec{}, jsonFrontEnds...), senFrontEnds...)...)
 	ruleGlobalReturn(prog, rep, 10, "pretty", "oj", "sen", "alt", "gen", "jp", "asm", "")
 	rulePreRegister(prog, rep)
 	ruleFieldLoopBounds(prog, rep, []string{"alt"}) // a field the registration walk leaves out is registered lazily, during a shared Recompose
